@@ -50,6 +50,17 @@ class Node:
     def line(self):
         return getattr(self.stmt, 'lineno', None)
 
+    def calls(self):
+        """Call nodes evaluated by this CFG node itself (the header only, for compound statements)."""
+        if self.stmt is None:
+            return []
+        if self.kind == 'handler':
+            return []
+        out = []
+        for ex in stmt_header_exprs(self.stmt):
+            out.extend(calls_in(ex))
+        return out
+
     def describe(self):
         if self.kind in ('entry', 'exit'):
             return self.kind
@@ -384,7 +395,7 @@ class CFG:
                         h = h.outer
                     if h is not None and st.cause is not None:
                         cs = {e.cause for e in h.hnode.pred if e.exc}
-                        if cs and cs <= {'e3'}:
+                        if cs and cs <= {'e3', 'e3p'}:
                             cause = 'e3'
                 self._route_exc(last, frame, exc, cause=cause, call=None)
             return []
@@ -516,7 +527,7 @@ class CFG:
         """Shortest path from `starts` to goal(n) that avoids node ids in `avoid` and takes at most `budget`
         fault edges (is_fault(e)); every other edge must satisfy flow_ok(e) or be a propagation edge."""
         from collections import deque
-        is_fault = is_fault or (lambda e: e.kind == 'async' or (e.kind == 'exc' and e.cause == 'e3'))
+        is_fault = is_fault or (lambda e: e.kind == 'async' or (e.kind == 'exc' and e.cause in ('e3', 'e3p')))
         flow_ok = flow_ok or is_flow
         prev = {}
         dq = deque()
